@@ -15,6 +15,8 @@ import KoordVerif.Proofs.C06ExtEvents
 import KoordVerif.Proofs.C06ExtGoc
 import KoordVerif.Proofs.C06ExtNrt
 import KoordVerif.Proofs.C06ExtRestore
+import KoordVerif.Proofs.C06ExtPreempt
+import KoordVerif.Proofs.C06ExtPreemptAvail
 /-
 C06 — CPU and NUMA allocations are exact, disjoint and within capacity.
 
@@ -1019,5 +1021,63 @@ theorem restore_overused_other_counterexample :
   have := h 8000 0 [{ r := 4000, o := 6000 }] (by decide)
     (by intro x hx; simp at hx; subst hx; exact ⟨by decide, by decide, Or.inl rfl⟩) (by decide)
   revert this; decide
+
+/-! ## Preemption dry run (extension round 6): preempt.go preemptibleAlloc, Plugin.RemovePod / Plugin.AddPod -/
+
+/-- **reprieve_inverse**: `Subtract` (AddPod: the victim is reprieved) undoes `Accumulate` (RemovePod) EXACTLY - both
+    fields are back to what they were - for a CPU set that is disjoint from the state, as a victim's CPUs are under a
+    sharing limit of one. -/
+theorem reprieve_inverse (a : PreAlloc) (cpus : List Nat)
+    (hA : ∀ c ∈ cpus, c ∉ a.toAdd) (hR : ∀ c ∈ cpus, c ∉ a.toRemove) :
+    (a.accumulate cpus).subtract cpus = a :=
+  reprieve_inverse_core a cpus hA hR
+
+/-- … on the plugin's steps: RemovePod(u) then AddPod(u) on an unchanged ledger leaves the dry-run state as it was. -/
+theorem reprieve_inverse_plugin (M : Mgr) (node uid : Nat) (a : PreAlloc)
+    (hA : ∀ c ∈ podAllocatedCPUs M node uid, c ∉ a.toAdd) (hR : ∀ c ∈ podAllocatedCPUs M node uid, c ∉ a.toRemove) :
+    addPodDry M node (removePodDry M node a uid) uid = a :=
+  reprieve_inverse_core a _ hA hR
+
+/-- **dryrun_preemptible_exact**: after EVERY well-formed dry run (a pod is removed only while it is on the node copy and
+    reprieved only after it was removed: `drun` returns `some`) over pods with pairwise disjoint CPU sets, the CPUs
+    reported preemptible are exactly (Σ removed − Σ re-added): the CPUs of the pods removed and not reprieved. -/
+theorem dryrun_preemptible_exact (cpusOf : Nat → List Nat) (hd : CpusDisjoint cpusOf) (ops : List DOp)
+    (a : PreAlloc) (s : List Nat) (hrun : drun cpusOf PreAlloc.empty [] ops = some (a, s)) (c : Nat) :
+    c ∈ a.preemptible ↔ ∃ u ∈ s, c ∈ cpusOf u := by
+  have hinv := dry_inv_run cpusOf hd ops _ _ _ _ (dry_inv_empty cpusOf) hrun
+  rw [mem_preemptible, hinv.1, ← hinv.2 c]
+  simp
+
+/-- a CPU of a pod that stays (never removed, or reprieved) is never reported preemptible. -/
+theorem dryrun_never_reports_held_cpu (cpusOf : Nat → List Nat) (hd : CpusDisjoint cpusOf) (ops : List DOp)
+    (a : PreAlloc) (s : List Nat) (hrun : drun cpusOf PreAlloc.empty [] ops = some (a, s)) (v : Nat) (hv : v ∉ s)
+    (c : Nat) (hc : c ∈ a.preemptible) : c ∉ cpusOf v := by
+  obtain ⟨u, hu, hcu⟩ := (dryrun_preemptible_exact cpusOf hd ops a s hrun c).1 hc
+  intro hcv
+  exact hv (hd u v c hcu hcv ▸ hu)
+
+/-- **dryrun_available_not_held** (the cpuset-not-free clause on the dry-run view): with sharing limit one and a ledger
+    that is the sum of its pods, what GetAvailableCPUs(node, ∅, preemptible) offers the preemptor after any well-formed
+    dry run contains no CPU of a pod that stays on the node; `take_exact` / `preferred_exact` then confine Allocate's answer to that set. -/
+theorem dryrun_available_not_held (topo : List Nat) (L : Ledger) (hinv : Inv L) (hd : CpusDisjoint (ledgerCpusOf L))
+    (ops : List DOp) (a : PreAlloc) (s : List Nat) (hrun : drun (ledgerCpusOf L) PreAlloc.empty [] ops = some (a, s))
+    (c : Nat) (hc : c ∈ dryAvailable topo 1 L a) (v : PodAlloc) (hv : v ∈ L.pods) (hstay : v.uid ∉ s) :
+    c ∉ v.cpus :=
+  dry_available_not_held_core topo L hinv hd a s
+    (dry_inv_run _ hd ops _ _ _ _ (dry_inv_empty _) hrun) c hc v hv hstay
+
+/-- the hypotheses are satisfiable on the seeded scenario: A = {0,1}, B = {2,3}; RemovePod(A), RemovePod(B), AddPod(A)
+    is well formed and leaves exactly B's CPUs preemptible. -/
+example :
+    let cpusOf : Nat → List Nat := fun u => if u = 1 then [0, 1] else if u = 2 then [2, 3] else []
+    (drun cpusOf PreAlloc.empty [] [.rm 1, .rm 2, .ad 1]).map (fun r => (r.1.preemptible, r.2)) = some ([2, 3], [2]) := by
+  decide
+
+/-- the seeded reordering of `Subtract` (the argument reduced first) is NOT an inverse: after RemovePod(A),
+    RemovePod(B), AddPod(A) it still reports A's CPUs 0 and 1 preemptible. -/
+theorem subtract_reordered_counterexample :
+    (((PreAlloc.empty.accumulate [0, 1]).accumulate [2, 3]).subtractReordered [0, 1]).preemptible = [0, 1, 2, 3] ∧
+    (((PreAlloc.empty.accumulate [0, 1]).accumulate [2, 3]).subtract [0, 1]).preemptible = [2, 3] := by
+  decide
 
 end KoordVerif.C06
